@@ -3,7 +3,7 @@ from ._prog import ProgProp
 
 class C05(ProgProp):
     id = "C05"
-    report = ("C05",)
+    report = ("C05", "C01")  # "...and that is what the waiting task receives"
     cross_check = False
     cfg = {"p_sync": 0.08, "p_try": 0.1, "p_fault": 0.05, "max_kinds": 4, "item_faults": 0.06, "flush_faults": 0.12,
            "p_item": 0.55, "base_exc": 0.3, "p_item_value_sync": 0.15, "flush_reenter": 0.25, "flush_cancels": 0.3}
